@@ -19,6 +19,7 @@ RULE = (
     "dense(M)[win] * outer(w_rows, w_cols) with reciprocals when divisive (explicit, or by default for "
     "KR/VC/VC_SQRT), NaN wherever either weight is NaN; rtol 1e-12. Non-trivial = row range != column range, >=1 "
     "stored pixel in the window and >=1 NaN weight in range. Distinct by sha1 of the canonical case."
+    ' Weight columns may be written after creation through cooler.create.append (whole columns, or chunked=True with generated cuts).'
 )
 ASSUMPTIONS = ["weights are positive finite floats or NaN (what balancing writes)"]
 
